@@ -12,29 +12,34 @@ namespace Conn
     upgrade path takes it as a parameter. -/
 def initiateUpgradeConnection (recvSettings : List (Int × Int) → CM Unit) (settingsHeader : Option Bytes) :
     CM (Option Bytes) := do
-  initiateConnection
   let c ← getS
-  let frameData ← if c.cfg.client then do
-      let f ← settingsFrameOfLocal
-      match f.body? with
-      | none => raise (.py .StructError)
-      | some b => pure (some (b64Encode b))
-    else match settingsHeader with
-      | none => pure none
-      | some [] => pure none                      -- `elif settings_header:` — empty is falsy
-      | some h =>
-        match b64Decode h with
-        | none => raise (.py (.Other "UNMODELLED"))
-        | some body =>
-          -- f = SettingsFrame(0); f.parse_body(body)
-          match parseBody { length := body.length, type := 4, flags := 0, sid := 0 } body with
-          | .ok { frame := .settings _ items, .. } => do recvSettings items; pure none
-          | .error .invalidFrame => raise (.py .InvalidFrameError)
-          | _ => raise (.py .InvalidDataError)
+  -- the server decodes the HTTP2-Settings value first: a value that is not a SETTINGS payload is a ProtocolError
+  let items : Option (List (Int × Int)) ← if c.cfg.client then pure none else
+    match settingsHeader with
+    | none => pure none
+    | some [] => pure none                      -- `and settings_header` — empty is falsy
+    | some h =>
+      match b64Decode h with
+      | none => raise (.py (.Other "UNMODELLED"))
+      | some body =>
+        -- f = SettingsFrame(0); f.parse_body(body)
+        match parseBody { length := body.length, type := 4, flags := 0, sid := 0 } body with
+        | .ok { frame := .settings _ items, .. } => pure (some items)
+        | _ => raise pErr
+  -- everything that can be refused comes before the preamble is written
+  match items with
+  | some items => recvSettings items
+  | none => pure ()
   connInput (if c.cfg.client then .SEND_HEADERS else .RECV_HEADERS)
   beginNewStream 1 true
   withStream 1 (Stream.upgrade c.cfg.client)
-  pure frameData
+  initiateConnection
+  if c.cfg.client then do
+    let f ← settingsFrameOfLocal
+    match f.body? with
+    | none => raise (.py .StructError)
+    | some b => pure (some (b64Encode b))
+  else pure none
 
 def getNextAvailableStreamId : CM Int := do
   let c ← getS
